@@ -1343,6 +1343,13 @@ func c12RoundsContext(ctx *core.Ctx, cov *core.Cov) *c12CtxReport {
 	for i := range rep.Results {
 		r := &rep.Results[i]
 		if st := c12CtxSiteOf(r.Case.Row.Proto, r.Case.Row.Site); st != nil && st.recordOnly && r.Skip == "" {
+			if r.Outcome == "accepted" {
+				// the property asks that a proof cannot be replayed by another participant: a context that names the recipient
+				// instead of the prover does not give that (a finding recorded in known_findings.json)
+				ctx.Report("C12:context:ecdsa-resharing:fac-to:context-names-recipient-not-prover",
+					fmt.Sprintf("ecdsa-resharing, factorisation proof in DGRound4Message1: the proof is made and verified under ssid || index of the RECIPIENT, so it does not name its prover: with the modulus proofs switched off (SetNoProofMod) the party at index %d presented the Paillier modulus and the factorisation proof of the party at index %d to the party at index %d, which accepted them and saved key data",
+						r.Case.Row.J, r.Case.Row.I, r.Case.VIdx), r.Case)
+			}
 			recorded = append(recorded, fmt.Sprintf("%s: the context of this site names the %s, not the prover: with the modulus proofs switched off (SetNoProofMod) the party at index %d presented the Paillier modulus and the factorisation proof of the party at index %d to the party at index %d, which %s them (model: %s)",
 				r.Case.Row.key(), r.Case.Row.CtxOf, r.Case.Row.J, r.Case.Row.I, r.Case.VIdx, r.Outcome, r.Case.Row.Predict))
 		}
